@@ -512,6 +512,42 @@ def job_cf(ctx, pidx):
     ctx.sample({'closed_form': cases[5][0], 'p': p.tolist(), 'q': cases[5][1].tolist(), 't': cases[5][3]})
 
 
+def job_reuse(ctx, k):
+    """Call sequences on the SAME argument objects (no defensive copies by the harness): d(A,B), d(B,A), d(A,B) again.  Symmetry must hold
+    between the calls, the third answer must equal the first, and the arguments must be left as they were."""
+    from mc import alphabet as A
+    from mc.ref import quat as rq
+    M = _M()
+    Qa = A.Gl(A.G24(), k).copy(); Qb = A.Gc(A.G24(), (k + 3) % 8).copy()
+    Ra = np.array([rq.R(q) for q in Qa]); Rb = np.array([rq.R(q) for q in Qb])
+    for m in ('qdist', 'qeip', 'qcip', 'qad', 'chordal'):
+        X, Y = (Ra.copy(), Rb.copy()) if m == 'chordal' else (Qa.copy() * 1.0, Qb.copy() * 1.0)
+        X0, Y0 = X.copy(), Y.copy()
+        fn = getattr(M, m)
+        try:
+            d1 = np.asarray(fn(X, Y), float); d2 = np.asarray(fn(Y, X), float); d3 = np.asarray(fn(X, Y), float)
+            s1 = float(fn(X[3], Y[3])); s2 = float(fn(Y[3], X[3]))
+        except Exception as ex:
+            ctx.evals += 1
+            ctx.fail(f'{m}: call sequence on the same arrays raises', f'k{k}', f'{type(ex).__name__}: {ex}'[:160], 'distances')
+            continue
+        ctx.close(d2, d1, TOL, f'{m}[N-row] symmetric d(a,b) = d(b,a) when the same arrays are reused', f'k{k}')
+        ctx.close(d3, d1, 0.0, f'{m}[N-row] same answer when called again on the same arrays', f'k{k}')
+        ctx.close([s2], [s1], TOL, f'{m}[single] symmetric when the same arrays are reused', f'k{k}')
+        ctx.close([s1], [d1[3]], 1e-8, f'{m} single = N-row row on reused arrays', f'k{k}')
+        ctx.expect(np.array_equal(X, X0) and np.array_equal(Y, Y0), f'{m} leaves its arguments as they were', f'k{k}', None, 'unchanged')
+        ctx.cls('reuse'); ctx.seen(('reuse', m, k))
+    for m in ('identity_deviation', 'angular_distance', 'chordal'):
+        X, Y = Ra[5].copy(), Rb[7].copy(); X0, Y0 = X.copy(), Y.copy()
+        fn = getattr(M, m)
+        d1 = float(fn(X, Y)); d2 = float(fn(Y, X)); d3 = float(fn(X, Y))
+        ctx.close([d2], [d1], 1e-8, f'{m}[single] symmetric d(a,b) = d(b,a) when the same arrays are reused', f'k{k}')
+        ctx.close([d3], [d1], 0.0, f'{m}[single] same answer when called again on the same arrays', f'k{k}')
+        ctx.expect(np.array_equal(X, X0) and np.array_equal(Y, Y0), f'{m} leaves its arguments as they were', f'k{k} single', None, 'unchanged')
+    ctx.transitions += 30
+    ctx.states += 8
+
+
 def job_nrow_matrix_note(ctx):
     """Not judged: what identity_deviation / angular_distance do with (N,3,3) input (documented for one 3x3 pair)."""
     S = A.Gl(A.G48(), 0)
@@ -571,6 +607,7 @@ def run(ctx):
     for pidx in range(len(P12())):
         jobs.append(('job_cf', (pidx,)))
     jobs.append(('job_nrow_matrix_note', ()))
+    jobs.append(('job_reuse', (A.seed_k(ctx.seed) if not ctx.thorough else 0,)))
     core.run_jobs(ctx, __name__, jobs)
     ctx.notes['menu_entries'] = ks
     ctx.notes['angle_grid'] = [tstr(t) for t in tgrid(ctx.thorough)]
